@@ -46,6 +46,8 @@ def make_storage(url, cb, timeout0=False):
 def set_beat(storage, trial_id, beat):
     import sqlalchemy
 
+    if beat == "none":
+        return None          # a trial that never recorded a heartbeat has no row: nothing is written (and nothing cleaned up)
     first = beat == "fresh" and trial_id % 2 == 0        # an alive worker's FIRST heartbeat (insert path), else a later one
     with storage.engine.begin() as conn:
         conn.execute(sqlalchemy.text("DELETE FROM trial_heartbeats WHERE trial_id = :t"), {"t": trial_id})
@@ -144,6 +146,13 @@ def execute(seed, mode, workdir):
     admin = make_storage(url, None)
     try:
         common.decoy(admin, seed % 3)
+        if seed % 2 == 0:
+            # a study whose trials had heartbeats is deleted before the study under test exists: SQLite hands the freed trial
+            # ids out again (finding K2), and whatever delete_study left behind would now belong to the new trials
+            gone = optuna.create_study(storage=admin, study_name="gone")
+            for _ in range(3):
+                set_beat(admin, gone.ask()._trial_id, "stale")
+            optuna.delete_study(study_name="gone", storage=admin)
         study0 = optuna.create_study(storage=admin, study_name="hb", sampler=optuna.samplers.RandomSampler(seed=seed))
 
         def pk(ft):
